@@ -4,6 +4,8 @@ pub mod std_gaps {
     verus! {
     /// number of bytes of the UTF-8 encoding of a char (vstd's specification of char::len_utf8)
     pub open spec fn utf8_len(c: char) -> nat { c.len_utf8() as nat }
+    /// std gap (ASSUMED): byte length of a String (value left unspecified)
+    pub assume_specification[ String::len ](s: &String) -> usize;
     /// std gap (ASSUMED): UTF-16 length of a char
     pub assume_specification[ char::len_utf16 ](c: char) -> (r: usize)
         ensures r == (if (c as u32) >= 0x10000 { 2usize } else { 1usize });
@@ -21,6 +23,12 @@ pub mod util {
     use crate::std_gaps::*;
     verus! {
     pub type FileServerHandle = usize;
+    pub trait FileServer {
+        /// the text of a file, as a character sequence
+        spec fn file_text(&self, file_handle: FileServerHandle) -> Seq<char>;
+        fn get_str_unwrap(&self, file_handle: FileServerHandle) -> (r: String)
+            ensures r@ == self.file_text(file_handle);
+    }
 
     // ---- property text (C13) as spec functions over the character sequence
     /// byte offset of character k (sum of the UTF-8 lengths of the characters before it)
@@ -72,6 +80,19 @@ pub mod diagn {
     impl Copy for Span {}
     impl Span {
         pub open spec fn is_dummy(&self) -> bool { self.location.0 == usize::MAX }
+    }
+    impl Clone for Message {
+        #[verifier::external_body]
+        fn clone(&self) -> (r: Message) ensures r == *self { unimplemented!() }
+    }
+    /// the property-level relation (C13): (line, col) are the 0-based line and character column of the
+    /// character that starts at byte index `index` of the text `s`
+    pub open spec fn is_line_col_of(s: Seq<char>, index: int, line: int, col: int) -> bool {
+        exists|k: int| 0 <= k <= s.len() && line == util::line_of(s, k) && col == util::col_of(s, k)
+            && (util::byte_off(s, k) >= index || k == s.len()) && (k > 0 ==> util::byte_off(s, k - 1) < index)
+    }
+    pub open spec fn span_line_cols(s: Seq<char>, i0: int, i1: int, l1: int, c1: int, l2: int, c2: int) -> bool {
+        is_line_col_of(s, i0, l1, c1) && is_line_col_of(s, i1, l2, c2)
     }
     //@@ITEMS diagn
     }
